@@ -28,6 +28,7 @@ THEOREMS = [
     "C02_write_meaning",
     "C02_no_fusion",
     "C02_cell_write_meaning",
+    "C02_read_meaning",
     "C02_ops_surface",
     "C02_ops_cell",
     "C02_ops_and",
@@ -369,6 +370,11 @@ def process(chk, drv, cases, impls, outs_den, outs_model, unit):
             v2 = judge(small, i2, d2)
             chk.violation(sig, v2[1] if v2 else what, {"case": small, "impl": i2})
             continue  # the state is corrupt: nothing else is compared for this case
+        if model is not None and case["origin"] == "parsed" and "init_ready" in model:
+            # C02_read_meaning is conditional on `ready` of the tree as read; it is not when a ")" of a nested right
+            # operand is all that separates two operands ("2 (-5)-4": the code adds a blank there on write).
+            # Those inputs are still judged by the truth-table oracle; the share is reported, never an alarm.
+            chk.count("read-side theorem hypothesis (ready of the tree as read): " + ("holds" if model["init_ready"] else "does not hold"))
         if model is not None or drv.ok:
             chk.traces_validated += 1
             diff = compare(case, impl, den, model)
